@@ -53,6 +53,33 @@ def _const_value(node: ast.AST) -> ast.AST | None:
         v = const_int(node)
         if v is not None:
             return ast.Constant(v)
+    sv = _const_string(node)
+    if sv is not None:
+        return ast.Constant(sv)
+    return None
+
+
+def _const_string(node: ast.AST) -> str | None:
+    """a string built from literals and the constants of the standard `string` module (`"_" + string.ascii_letters`, ...)"""
+    import string as _string
+
+    if isinstance(node, ast.Constant) and isinstance(node.value, str):
+        return node.value
+    if isinstance(node, ast.Attribute) and isinstance(node.value, ast.Name) and node.value.id == "string" and \
+            node.attr in ("ascii_letters", "ascii_lowercase", "ascii_uppercase", "digits", "hexdigits", "octdigits", "punctuation", "whitespace"):
+        return getattr(_string, node.attr)
+    if isinstance(node, ast.BinOp) and isinstance(node.op, ast.Add):
+        a, b = _const_string(node.left), _const_string(node.right)
+        return a + b if a is not None and b is not None else None
+    if isinstance(node, ast.Call) and isinstance(node.func, ast.Attribute) and node.func.attr == "join" and isinstance(node.func.value, ast.Constant) \
+            and node.func.value.value == "" and len(node.args) == 1:
+        a0 = node.args[0]
+        if isinstance(a0, ast.Call) and isinstance(a0.func, ast.Name) and a0.func.id == "sorted" and len(a0.args) == 1:
+            inner = _const_string(a0.args[0])
+            return "".join(sorted(inner)) if inner is not None else None
+        if isinstance(a0, (ast.Tuple, ast.List)):
+            parts = [_const_string(e) for e in a0.elts]
+            return "".join(parts) if all(p is not None for p in parts) else None  # type: ignore[arg-type]
     return None
 
 
